@@ -110,6 +110,41 @@ def scenario(B, G, kind, n, h, a=None):
             for k in range(D):
                 G.eq("%s.absolute_sq[%d]" % (tag, k), va[k] ** 2, vals[k] ** 2)
                 G.nonneg("%s.absolute_nonneg[%d]" % (tag, k), va[k])
+    if n <= 2:
+        # history: the SAME observable objects on the SAME (unmodified) batch tensor, before and after the state is re-parameterised in
+        # place (as training and loading do): the second evaluation is unbiased for the NEW state (nothing remembered from the first)
+        held = space.clone()
+        hobs = [("X", SigmaX()), ("Y", SigmaY()), ("Z", SigmaZ())]
+        for name, ob in hobs:
+            ob.apply(st, held)
+        for part in ("am", "ph"):
+            if hasattr(st, "rbm_" + part) and part in P:
+                C.load_rbm(B, getattr(st, "rbm_" + part), part + "'", zero=(("aux_bias",) if (kind == "mixed" and part == "ph") else ()))
+        prob2 = B.scalars(st.probability(space))
+        if kind == "mixed":
+            r_ = B.scalars(st.rho(space, space))
+            rho2 = [[O.cplx(r_[0, i, j], r_[1, i, j]) for j in range(D)] for i in range(D)]
+        else:
+            ps = B.scalars(st.psi(space))
+            psi2 = [O.cplx(ps[0, i], ps[1, i]) for i in range(D)]
+        for name, ob in hobs:
+            v2 = B.scalars(ob.apply(st, held))
+            lhs = O.frac(0)
+            for k in range(D):
+                lhs = lhs + prob2[k] * v2[k]
+            tr = O.cplx(O.frac(0))
+            for i in range(D):
+                for j in range(D):
+                    e = op_entry(O, name, n, rows[j], rows[i])
+                    if O.re(e) == 0 and O.im(e) == 0:
+                        continue
+                    rij = rho2[i][j] if kind == "mixed" else psi2[i] * O.conj(psi2[j])
+                    tr = tr + rij * e
+            G.eq("%s.unbiased_after_reparameterisation_same_batch" % name, lhs, O.re(tr))
+        for part in ("am", "ph"):  # back to the first parameterisation for the twins below
+            if hasattr(st, "rbm_" + part) and part in P:
+                for pname, p_ in getattr(st, "rbm_" + part).named_parameters():
+                    B.load(p_, P[part][pname])
     vy = B.scalars(SigmaY().apply(st, space.clone()))
     if kind != "positive":
         trm = O.cplx(O.frac(0))
